@@ -152,12 +152,22 @@ def Print(*args):
     return Expr(Call("println", *args))
 
 
-def Fn(ps, body, ret="null", pts=None):
-    return {"ps": [p for p in ps], "pts": pts or ["int"] * len(ps), "ret": ret, "body": body}
+def Fn(ps, body, ret="null", pts=None, sps=(), event=False):
+    """sps: singleton parameters [(param, "$Singleton")], bound by the callee, not passed by the caller"""
+    return {"ps": [p for p in ps], "pts": pts or ["int"] * len(ps), "ret": ret, "body": body,
+            "sps": [list(x) for x in sps], "event": event}
 
 
-def Program(pid, fns, globs=(), feats=None):
-    return {"id": pid, "fns": fns, "globals": [{"x": x, "e": e} for x, e in globs], "feats": feats or {}}
+def Trigger(cb, ev, *args):
+    return {"k": "trigger", "cb": cb, "ev": ev, "args": list(args), "p": newp()}
+
+
+def Program(pid, fns, globs=(), feats=None, sings=(), host=None, imports=()):
+    """sings: [(name, type text, zero value expr)]; host: {name: (value expr, JV)} values the host provides"""
+    host = host or {}
+    sg = [{"x": n, "e": (host[n][0] if n in host else z), "decl": t} for n, t, z in sings]
+    return {"id": pid, "fns": fns, "globals": sg + [{"x": x, "e": e} for x, e in globs], "feats": feats or {},
+            "host": {n: v[1] for n, v in host.items()}, "imports": list(imports)}
 
 
 # ---- rendering -----------------------------------------------------------------------------
@@ -425,6 +435,13 @@ def r_stmt(w, n, ind):
         r_expr(w, n["c"], ind)
         w.w(" ")
         r_block(w, n["b"], ind)
+    elif k == "trigger":
+        w.w("trigger %s at %s(" % (n["cb"], n["ev"]))
+        for i, a in enumerate(n["args"]):
+            if i:
+                w.w(", ")
+            r_expr(w, a, ind)
+        w.w(");")
     elif k == "for":
         w.w("for %s in " % n["x"])
         r_expr(w, n["e"], ind)
@@ -439,7 +456,12 @@ def r_stmt(w, n, ind):
 def render(prog):
     """-> (source text, spans: p -> {s:(l,c,i), e:(l,c,i)})"""
     w = W()
+    for imp in prog.get("imports", ()):
+        w.w(imp + "\n")
     for g in prog["globals"]:
+        if "decl" in g:                      # a singleton: declared by its type, initialised by the host / zero value
+            w.w("%s = %s;\n" % (g["x"], g["decl"]))
+            continue
         w.w("let %s = " % g["x"])
         r_expr(w, g["e"], 0)
         w.w(";\n")
@@ -448,7 +470,8 @@ def render(prog):
     names = [f for f in prog["fns"] if f != "main"] + ["main"]
     for name in names:
         f = prog["fns"][name]
-        w.w("fn %s(%s)" % (name, ", ".join("%s: %s" % (p, t) for p, t in zip(f["ps"], f["pts"]))))
+        params = ["%s: %s" % (p, sname) for p, sname in f.get("sps", [])] + ["%s: %s" % (p, t) for p, t in zip(f["ps"], f["pts"])]
+        w.w("%sfn %s(%s)" % ("event " if f.get("event") else "", name, ", ".join(params)))
         if f["ret"] != "null":
             w.w(" -> " + f["ret"])
         w.w(" ")
@@ -459,8 +482,8 @@ def render(prog):
 
 def spec_json(prog):
     """the program as HmsSem reads it (types and feature tags dropped)"""
-    fns = {n: {"ps": f["ps"], "body": f["body"]} for n, f in prog["fns"].items()}
-    return json.dumps({"id": prog["id"], "fns": fns, "globals": prog["globals"]})
+    fns = {n: {"ps": f["ps"], "sps": f.get("sps", []), "body": f["body"]} for n, f in prog["fns"].items()}
+    return json.dumps({"id": prog["id"], "fns": fns, "globals": [{"x": g["x"], "e": g["e"]} for g in prog["globals"]]})
 
 
 # ---- expected text ---------------------------------------------------------------------------
@@ -531,6 +554,8 @@ def expected_pattern(out_events, entry="main"):
     groups = []
     n = 0
     for ev in out_events:
+        if ev["w"] == "trigger":
+            continue
         frs = []
         for i, v in enumerate(ev["vs"]):
             if i:
@@ -560,6 +585,8 @@ def plain_text(out_events):
     """expected output when it contains no positions / unordered objects; else None"""
     buf = []
     for ev in out_events:
+        if ev["w"] == "trigger":
+            continue
         frs = []
         for i, v in enumerate(ev["vs"]):
             if i:
@@ -572,3 +599,11 @@ def plain_text(out_events):
                 return None
             buf.append(f)
     return "".join(buf)
+
+
+def expected_triggers(out_events):
+    out = []
+    for ev in out_events:
+        if ev["w"] == "trigger":
+            out.append((ev["cb"], ev["ev"], ["".join(x for x in show(v) if isinstance(x, str)) for v in ev["vs"]]))
+    return out
